@@ -31,7 +31,7 @@ pub fn run() {
             let prop = arg(&args, "--prop").expect("--prop");
             let tier = arg(&args, "--tier").unwrap_or_else(|| "quick".into());
             let thorough = tier == "thorough";
-            let secs: u64 = arg(&args, "--secs").and_then(|s| s.parse().ok()).unwrap_or(if thorough { 1500 } else { 50 });
+            let secs: u64 = arg(&args, "--secs").and_then(|s| s.parse().ok()).unwrap_or(if thorough { 900 } else { 50 });
             let threads: usize = arg(&args, "--threads").and_then(|s| s.parse().ok()).unwrap_or_else(|| std::thread::available_parallelism().map_or(8, |n| n.get()));
             let seed: u64 = std::env::var("VERIF_SEED").ok().and_then(|s| s.parse().ok()).unwrap_or(0);
             let deadline = Instant::now() + Duration::from_secs(secs);
